@@ -36,11 +36,11 @@ Lemma authenticb_spec k d : authenticb k d = true <-> authentic k d.
 Proof.
   unfold authenticb, authentic. split.
   - destruct (d_body d) as [k' sh p| |]; try discriminate. intros H.
-    apply andb_prop in H as [H Hl]. apply andb_prop in H as [Hk Hh].
-    apply header_eqb_eq in Hh. apply Z.eqb_eq in Hk. subst. exists p. split; [reflexivity | lia].
-  - intros [p [-> Hl]]. rewrite Z.eqb_refl.
+    apply andb_prop in H as [Hk Hh].
+    apply header_eqb_eq in Hh. apply Z.eqb_eq in Hk. subst. exists p. reflexivity.
+  - intros [p ->]. rewrite Z.eqb_refl.
     replace (header_eqb (d_hdr d) (d_hdr d)) with true by (symmetry; apply header_eqb_eq; reflexivity).
-    cbn. lia.
+    reflexivity.
 Qed.
 
 (* ---------- opening a datagram ---------- *)
@@ -49,7 +49,7 @@ Lemma open_key_authentic k d ms : open_dgram (Some k) d = Ok ms -> authentic k d
 Proof.
   unfold open_dgram. intros H. apply authenticb_spec. unfold authenticb.
   destruct (d_body d) as [k' sh p| |]; cbn in H; try discriminate.
-  destruct ((k =? k') && header_eqb sh (d_hdr d) && (h_len (d_hdr d) =? len p)); [reflexivity|].
+  destruct ((k =? k') && header_eqb sh (d_hdr d)); [reflexivity|].
   cbn in H. discriminate.
 Qed.
 
@@ -63,11 +63,12 @@ Lemma open_key_payload k d ms : open_dgram (Some k) d = Ok ms ->
   exists p, d_body d = Sealed k (d_hdr d) p /\ h_len (d_hdr d) = len p
             /\ decode_msgs (h_type (d_hdr d)) (h_count (d_hdr d)) p = Ok ms.
 Proof.
-  intros H. destruct (open_key_authentic _ _ _ H) as [p [Hb Hl]]. exists p. split; [exact Hb|]. split; [exact Hl|].
+  intros H. destruct (open_key_authentic _ _ _ H) as [p Hb]. exists p. split; [exact Hb|].
   unfold open_dgram in H. rewrite Hb in H.
   rewrite Z.eqb_refl in H.
   replace (header_eqb (d_hdr d) (d_hdr d)) with true in H by (symmetry; apply header_eqb_eq; reflexivity).
-  replace (h_len (d_hdr d) =? len p) with true in H by lia. exact H.
+  destruct (h_len (d_hdr d) =? len p) eqn:E; cbn in H; [|discriminate].
+  split; [lia|exact H].
 Qed.
 
 Lemma open_clear_payload d ms : open_dgram None d = Ok ms ->
